@@ -12,7 +12,8 @@ PARSE_FUNCS = ['parse', 'parseTokens', 'parseExpression', 'parseAnd', 'parseAtom
 
 
 def g_parse_tokens(nmax, **kw):
-    return grp('L-PARSE', 'VH_parseTokens', [[n] for n in range(1, nmax + 1)],
+    jobs = [[n, '-'] for n in range(1, min(nmax, 6) + 1)] + [[n, c] for n in range(7, nmax + 1) for c in range(12)]
+    return grp('L-PARSE', 'VH_parseTokens', jobs,
                bound='all token sequences of length <= %d over 12 token classes' % nmax,
                symbolic='token class per position (choice variable, 12 values)',
                asserts=['accept-iff-grammar', 'node-xor-error'], cost=10, internal=True, **kw)
@@ -115,19 +116,19 @@ def c15(tier, seed):
     q = tier == 'quick'
     prefixes = [''] + UNITS + [a + b for a in UNITS for b in UNITS]
     if not q:
-        prefixes += [a + b + c for a in UNITS[2:8] for b in UNITS[2:8] for c in UNITS[2:8]]
+        prefixes += [a + b + c for a in UNITS[2:6] for b in UNITS[2:6] for c in UNITS[2:6]]
     else:
         prefixes = prefixes[:13] + prefixes[13:][seed % 3::3]
     jobs = []
     for pre in prefixes:
-        for k in (1, 2, 3) if q else (1, 2, 3, 4, 5):
+        for k in (1, 2, 3) if q else (1, 2, 3, 4):
             jobs.append([pre, k, 'id'])
         jobs.append([pre, 1, 'stray'])
         for k in (0, 1):
             jobs.append([pre, k, 'ref'])
             jobs.append([pre, k, 'docref'])
     return [grp('offsets', 'VH_offsets', jobs, merge=ML, cost=10,
-                bound='%d valid prefixes (sequences of <= %d units with -or-later rewrites, +, WITH, spaces, parentheses, references) followed by an unknown id of <= %d symbolic id characters, a stray byte, or a truncated reference; each culprit is then presented again at the start of a string' % (len(prefixes), 2 if q else 3, 3 if q else 5),
+                bound='%d valid prefixes (sequences of <= %d units with -or-later rewrites, +, WITH, spaces, parentheses, references) followed by an unknown id of <= %d symbolic id characters, a stray byte, or a truncated reference; each culprit is then presented again at the start of a string' % (len(prefixes), 2 if q else 3, 3 if q else 4),
                 symbolic='the bytes of the culprit', asserts=['offset-in-range', 'lexeme-at-offset', 'missing-id-offset'])]
 
 
